@@ -1,28 +1,29 @@
-// C14 harness: truncated model files.  For generated valid files of every format it decodes EVERY
-// strict prefix (every byte for binary, every token boundary for ASCII) with the real decoders,
-// under a deadline, and records class + result.  Observations become Coq cases for Check/C14.v.
+// C14 harness: truncated model files.  For generated valid files of every format it decodes EVERY strict prefix
+// (every byte for binary files and for headers, every token boundary for ASCII bodies) with the real decoders, each
+// decode in a child process under a deadline (2 s + 1 us/byte) and an address-space cap, and records class + result.
+// Observations become Coq cases for Check/C14.v: prop_ok judges the implementation alone, corr_ok compares the
+// class with the Coq models' decode of the same prefix.
 package main
 
 import (
 	"bytes"
 	"compress/gzip"
-	"crypto/sha1"
 	"encoding/binary"
 	"encoding/hex"
 	"encoding/json"
 	"fmt"
+	"io"
 	"math"
-	"runtime"
+	"os"
+	"path/filepath"
 	"sort"
 	"strings"
-	"time"
 
 	"verif/harness/hx"
+	"verif/harness/internal/plyx"
 
 	"github.com/EliCDavis/polyform/formats/ply"
-	"github.com/EliCDavis/polyform/formats/pts"
 	"github.com/EliCDavis/polyform/formats/splat"
-	"github.com/EliCDavis/polyform/formats/spz"
 	"github.com/EliCDavis/polyform/formats/stl"
 	"github.com/EliCDavis/polyform/modeling"
 	"github.com/EliCDavis/vector/vector2"
@@ -30,161 +31,53 @@ import (
 	"github.com/EliCDavis/vector/vector4"
 )
 
-// ---------- canonical digest of a mesh (bit-exact) ----------
-func meshDigest(m modeling.Mesh) string {
-	var b strings.Builder
-	fmt.Fprintf(&b, "T%d|I", int(m.Topology()))
-	idx := m.Indices()
-	for i := 0; i < idx.Len(); i++ {
-		fmt.Fprintf(&b, "%d,", idx.At(i))
-	}
-	names := m.Float1Attributes()
-	sort.Strings(names)
-	for _, n := range names {
-		fmt.Fprintf(&b, "|1:%s:", n)
-		a := m.Float1Attribute(n)
-		for i := 0; i < a.Len(); i++ {
-			fmt.Fprintf(&b, "%x,", math.Float64bits(a.At(i)))
-		}
-	}
-	names = m.Float2Attributes()
-	sort.Strings(names)
-	for _, n := range names {
-		fmt.Fprintf(&b, "|2:%s:", n)
-		a := m.Float2Attribute(n)
-		for i := 0; i < a.Len(); i++ {
-			v := a.At(i)
-			fmt.Fprintf(&b, "%x/%x,", math.Float64bits(v.X()), math.Float64bits(v.Y()))
-		}
-	}
-	names = m.Float3Attributes()
-	sort.Strings(names)
-	for _, n := range names {
-		fmt.Fprintf(&b, "|3:%s:", n)
-		a := m.Float3Attribute(n)
-		for i := 0; i < a.Len(); i++ {
-			v := a.At(i)
-			fmt.Fprintf(&b, "%x/%x/%x,", math.Float64bits(v.X()), math.Float64bits(v.Y()), math.Float64bits(v.Z()))
-		}
-	}
-	names = m.Float4Attributes()
-	sort.Strings(names)
-	for _, n := range names {
-		fmt.Fprintf(&b, "|4:%s:", n)
-		a := m.Float4Attribute(n)
-		for i := 0; i < a.Len(); i++ {
-			v := a.At(i)
-			fmt.Fprintf(&b, "%x/%x/%x/%x,", math.Float64bits(v.X()), math.Float64bits(v.Y()), math.Float64bits(v.Z()), math.Float64bits(v.W()))
-		}
-	}
-	h := sha1.Sum([]byte(b.String()))
-	return hex.EncodeToString(h[:8])
-}
+const parallel = 8
+const hangLimit = 3 // stop exploring after this many missed deadlines: the hang is already recorded
 
-// ---------- decoding under a deadline ----------
-const (
-	clsOk    = 0
-	clsErr   = 1 // error return or panic(err) with a non-runtime error: a reported failure
-	clsCrash = 2 // runtime.Error panic
-	clsHang  = 3 // deadline exceeded
-)
-
-type outcome struct {
-	cls    int
-	mesh   *modeling.Mesh
-	hasErr bool // .splat returns data AND an error
-	msg    string
-}
-
-var hangs = 0
-
-func decode(format string, data []byte) outcome {
-	ch := make(chan outcome, 1)
-	go func() {
-		var o outcome
-		defer func() {
-			if rec := recover(); rec != nil {
-				if _, isRt := rec.(runtime.Error); isRt {
-					o = outcome{cls: clsCrash, msg: fmt.Sprint(rec)}
-				} else {
-					o = outcome{cls: clsErr, msg: fmt.Sprint(rec)}
-				}
-			}
-			ch <- o
-		}()
-		switch format {
-		case "stl":
-			m, err := stl.ReadMesh(bytes.NewReader(data))
-			if err != nil {
-				o = outcome{cls: clsErr, msg: err.Error()}
-			} else {
-				o = outcome{cls: clsOk, mesh: m}
-			}
-		case "ply":
-			m, err := ply.ReadMesh(bytes.NewReader(data))
-			if err != nil {
-				o = outcome{cls: clsErr, msg: err.Error()}
-			} else {
-				o = outcome{cls: clsOk, mesh: m}
-			}
-		case "pts":
-			m, err := pts.ReadPointCloud(bytes.NewReader(data))
-			if err != nil {
-				o = outcome{cls: clsErr, msg: err.Error()}
-			} else {
-				o = outcome{cls: clsOk, mesh: m}
-			}
-		case "splat":
-			m, err := splat.Read(bytes.NewReader(data))
-			o = outcome{cls: clsOk, mesh: &m, hasErr: err != nil}
-			if err != nil {
-				o.msg = err.Error()
-			}
-		case "spz":
-			c, err := spz.Read(bytes.NewReader(data))
-			if err != nil {
-				o = outcome{cls: clsErr, msg: err.Error()}
-			} else {
-				o = outcome{cls: clsOk, mesh: &c.Mesh}
-			}
-		}
-	}()
-	// deadline: 2 s + 1 µs per byte (the property: time proportional to the input)
-	select {
-	case o := <-ch:
-		return o
-	case <-time.After(2*time.Second + time.Duration(len(data))*time.Microsecond):
-		hangs++
-		return outcome{cls: clsHang, msg: "deadline exceeded"}
-	}
-}
-
-// ---------- file generators ----------
+// ---------- file descriptions (replayable) ----------
 type fileDesc struct {
 	Format string `json:"format"`         // stl | ply | pts | splat | spz
-	Sub    string `json:"sub"`            // ply: ascii|le|be ; spz: v1|v2
+	Sub    string `json:"sub"`            // ply: ascii|le|be (+ "-ref" for the independent encoder); spz: v1|v2 + degree
 	Hex    string `json:"hex"`            // the complete valid file
 	Cuts   []int  `json:"cuts,omitempty"` // nil: all admissible cut positions
 	// pts only: the abstract token view
 	PtsCount int     `json:"pts_count,omitempty"`
 	PtsLines [][]int `json:"pts_lines,omitempty"`
+	// filled in when a case fails: the first offending cut
+	BadCut *int   `json:"bad_cut,omitempty"`
+	BadWhy string `json:"bad_why,omitempty"`
 }
 
-func randMesh(r *hx.Rng, tris bool, uv bool) modeling.Mesh {
+type hostileDesc struct {
+	Format   string `json:"format"`
+	What     string `json:"what"`
+	Hex      string `json:"hex"`
+	Declared uint64 `json:"declared"`
+}
+
+// ---------- generators ----------
+func randMesh(r *hx.Rng, tris bool, uv bool, big bool) modeling.Mesh {
 	nv := r.Range(1, 6)
+	if big {
+		nv = r.Range(4, 40)
+	}
 	pos := make([]vector3.Float64, nv)
 	nrm := make([]vector3.Float64, nv)
 	col := make([]vector3.Float64, nv)
 	uvs := make([]vector2.Float64, nv)
 	for i := range pos {
-		pos[i] = vector3.New(float64(r.Range(-9, 9)), float64(r.Range(-9, 9))/2, float64(r.Range(-9, 9))/4)
-		nrm[i] = vector3.New(0., 0., 1.)
-		col[i] = vector3.New(float64(r.Intn(256))/255, float64(r.Intn(256))/255, float64(r.Intn(256))/255)
-		uvs[i] = vector2.New(float64(r.Intn(5))/4, float64(r.Intn(5))/4)
+		// every stored byte pattern non-trivial: odd multiples of small dyadics, never 0
+		pos[i] = vector3.New(float64(2*r.Range(-9, 9)+1), float64(2*r.Range(-9, 9)+1)/2, float64(2*r.Range(-9, 9)+1)/4)
+		nrm[i] = vector3.New(float64(2*r.Range(0, 3)+1)/8, float64(2*r.Range(0, 3)+1)/8, float64(2*r.Range(0, 3)+1)/8)
+		col[i] = vector3.New(float64(r.Range(1, 255))/255, float64(r.Range(1, 255))/255, float64(r.Range(1, 255))/255)
+		uvs[i] = vector2.New(float64(2*r.Intn(4)+1)/8, float64(2*r.Intn(4)+1)/8)
 	}
 	var m modeling.Mesh
 	if tris {
 		nt := r.Range(0, 4)
+		if big {
+			nt = r.Range(2, 30)
+		}
 		idx := make([]int, 3*nt)
 		for i := range idx {
 			idx[i] = r.Intn(nv)
@@ -210,27 +103,148 @@ func randMesh(r *hx.Rng, tris bool, uv bool) modeling.Mesh {
 	if r.Chance(1, 3) {
 		s := make([]float64, nv)
 		for i := range s {
-			s[i] = float64(r.Range(-4, 4))
+			s[i] = float64(2*r.Range(-4, 4) + 1)
 		}
 		m = m.SetFloat1Attribute("quality", s)
 	}
 	return m
 }
 
-func genFile(r *hx.Rng, which int) (fileDesc, bool) {
+// independent PLY encoder (written from the PLY specification): uchar colours with/without alpha, double and int
+// columns, triangle and quad faces, uchar/uint count types, float/double texcoord lists, all three encodings
+func genRefPly(r *hx.Rng, big bool) (fileDesc, bool) {
+	sub := hx.Pick(r, []string{"ascii", "le", "be"})
+	fmtName := map[string]string{"ascii": "ascii", "le": "binary_little_endian", "be": "binary_big_endian"}[sub]
+	type vp struct{ ty, name string }
+	posTy := hx.Pick(r, []string{"float", "float", "double"})
+	props := []vp{{posTy, "x"}, {posTy, "y"}, {posTy, "z"}}
+	if r.Bool() {
+		props = append(props, vp{"float", "nx"}, vp{"float", "ny"}, vp{"float", "nz"})
+	}
+	switch r.Intn(3) {
+	case 0:
+		props = append(props, vp{"uchar", "red"}, vp{"uchar", "green"}, vp{"uchar", "blue"})
+	case 1:
+		props = append(props, vp{"uchar", "red"}, vp{"uchar", "green"}, vp{"uchar", "blue"}, vp{"uchar", "alpha"})
+	}
+	if r.Chance(1, 3) {
+		props = append(props, vp{"int", "label"})
+	}
+	nv := r.Range(1, 5)
+	if big {
+		nv = r.Range(4, 30)
+	}
+	hasFace := r.Chance(2, 3)
+	hasTex := hasFace && r.Bool()
+	ct := hx.Pick(r, []string{"uchar", "uchar", "uint"})
+	it := hx.Pick(r, []string{"int", "uint"})
+	tt := hx.Pick(r, []string{"float", "double"})
+	nf := 0
+	if hasFace {
+		nf = r.Range(0, 4)
+		if big {
+			nf = r.Range(2, 20)
+		}
+	}
+	var hdr strings.Builder
+	fmt.Fprintf(&hdr, "ply\nformat %s 1.0\ncomment c14 reference encoder\nelement vertex %d\n", fmtName, nv)
+	for _, p := range props {
+		fmt.Fprintf(&hdr, "property %s %s\n", p.ty, p.name)
+	}
+	if hasFace {
+		fmt.Fprintf(&hdr, "element face %d\nproperty list %s %s vertex_indices\n", nf, ct, it)
+		if hasTex {
+			fmt.Fprintf(&hdr, "property list %s %s texcoord\n", ct, tt)
+		}
+	}
+	hdr.WriteString("end_header\n")
+	out := []byte(hdr.String())
+	be := sub == "be"
+	ascii := sub == "ascii"
+	var line []string
+	put := func(ty string, iv int64, fv float64) {
+		if ascii {
+			switch ty {
+			case "float", "double":
+				line = append(line, fmt.Sprintf("%g", fv))
+			default:
+				line = append(line, fmt.Sprintf("%d", iv))
+			}
+			return
+		}
+		var w uint64
+		n := 4
+		switch ty {
+		case "uchar":
+			w, n = uint64(uint8(iv)), 1
+		case "int", "uint":
+			w = uint64(uint32(int32(iv)))
+		case "float":
+			w = uint64(math.Float32bits(float32(fv)))
+		case "double":
+			w, n = math.Float64bits(fv), 8
+		}
+		buf := make([]byte, 8)
+		if be {
+			binary.BigEndian.PutUint64(buf, w)
+			out = append(out, buf[8-n:]...)
+		} else {
+			binary.LittleEndian.PutUint64(buf, w)
+			out = append(out, buf[:n]...)
+		}
+	}
+	flush := func() {
+		if ascii {
+			out = append(out, strings.Join(line, " ")+"\n"...)
+			line = line[:0]
+		}
+	}
+	for i := 0; i < nv; i++ {
+		for _, p := range props {
+			switch p.ty {
+			case "uchar":
+				put(p.ty, int64(r.Range(1, 255)), 0)
+			case "int":
+				put(p.ty, int64(r.Range(-300, 300)*2+1), 0)
+			default:
+				put(p.ty, 0, float64(2*r.Range(-20, 20)+1)/8)
+			}
+		}
+		flush()
+	}
+	for f := 0; f < nf; f++ {
+		k := 3 + r.Intn(2)
+		put(ct, int64(k), 0)
+		for j := 0; j < k; j++ {
+			put(it, int64(r.Intn(nv)), 0)
+		}
+		if hasTex {
+			put(ct, int64(2*k), 0)
+			for j := 0; j < 2*k; j++ {
+				put(tt, 0, float64(2*r.Intn(8)+1)/16)
+			}
+		}
+		flush()
+	}
+	return fileDesc{Format: "ply", Sub: sub + "-ref", Hex: hex.EncodeToString(out)}, true
+}
+
+const nKinds = 8
+
+func genFile(r *hx.Rng, which int, big bool) (fileDesc, bool) {
 	var buf bytes.Buffer
 	switch which {
 	case 0: // stl
-		m := randMesh(r, true, false)
+		m := randMesh(r, true, false, big)
 		if err := stl.WriteMesh(&buf, m); err != nil {
 			return fileDesc{}, false
 		}
 		return fileDesc{Format: "stl", Hex: hex.EncodeToString(buf.Bytes())}, true
-	case 1, 2, 3: // ply
+	case 1, 2, 3: // ply through polyform's own writer
 		sub := []string{"ascii", "le", "be"}[which-1]
 		f := []ply.Format{ply.ASCII, ply.BinaryLittleEndian, ply.BinaryBigEndian}[which-1]
-		tris := r.Bool()
-		m := randMesh(r, tris, tris && r.Bool())
+		tris := r.Chance(2, 3)
+		m := randMesh(r, tris, tris && r.Bool(), big)
 		var err error
 		func() {
 			defer func() {
@@ -246,6 +260,9 @@ func genFile(r *hx.Rng, which int) (fileDesc, bool) {
 		return fileDesc{Format: "ply", Sub: sub, Hex: hex.EncodeToString(buf.Bytes())}, true
 	case 4: // pts
 		n := r.Range(0, 4)
+		if big {
+			n = r.Range(3, 40)
+		}
 		cols := hx.Pick(r, []int{3, 3, 4, 7, 7})
 		lines := make([][]int, n)
 		var sb strings.Builder
@@ -255,6 +272,9 @@ func genFile(r *hx.Rng, which int) (fileDesc, bool) {
 			for j := range lines[i] {
 				if j < 3 {
 					lines[i][j] = r.Range(-50, 50)
+					if lines[i][j] == 0 {
+						lines[i][j] = 51
+					}
 				} else {
 					lines[i][j] = r.Range(1, 255) // non-zero so a zero placeholder is distinguishable
 				}
@@ -268,67 +288,77 @@ func genFile(r *hx.Rng, which int) (fileDesc, bool) {
 		return fileDesc{Format: "pts", Hex: hex.EncodeToString([]byte(sb.String())), PtsCount: n, PtsLines: lines}, true
 	case 5: // splat
 		n := r.Range(0, 5)
+		if big {
+			n = r.Range(3, 30)
+		}
 		pos := make([]vector3.Float64, n)
 		sc := make([]vector3.Float64, n)
 		fdc := make([]vector3.Float64, n)
 		op := make([]float64, n)
 		rot := make([]vector4.Float64, n)
 		for i := 0; i < n; i++ {
-			pos[i] = vector3.New(float64(r.Range(-9, 9)), float64(r.Range(-9, 9)), float64(r.Range(-9, 9)))
-			sc[i] = vector3.New(-1., 0., 0.5)
+			pos[i] = vector3.New(float64(2*r.Range(-9, 9)+1), float64(2*r.Range(-9, 9)+1), float64(2*r.Range(-9, 9)+1))
+			sc[i] = vector3.New(-1., 0.25, 0.5)
 			fdc[i] = vector3.New(r.Float()-0.5, r.Float()-0.5, r.Float()-0.5)
 			op[i] = r.Float()*4 - 2
 			rot[i] = vector4.New(0.5, -0.5, 0.5, 0.5)
+		}
+		if n == 0 {
+			return fileDesc{Format: "splat", Hex: ""}, true
 		}
 		m := modeling.NewPointCloud(
 			map[string][]vector4.Float64{modeling.RotationAttribute: rot},
 			map[string][]vector3.Float64{modeling.PositionAttribute: pos, modeling.ScaleAttribute: sc, modeling.FDCAttribute: fdc},
 			nil, map[string][]float64{modeling.OpacityAttribute: op}, nil)
-		if n == 0 {
-			return fileDesc{Format: "splat", Hex: ""}, true
-		}
 		if err := splat.Write(&buf, m); err != nil {
 			return fileDesc{}, false
 		}
 		return fileDesc{Format: "splat", Hex: hex.EncodeToString(buf.Bytes())}, true
-	default: // spz, independent encoder from the published layout
+	case 6: // spz, independent encoder from the published layout: v1 (half floats) / v2 (24-bit fixed), degree 0-3
 		ver := r.Range(1, 2)
 		deg := r.Range(0, 3)
 		shDim := []int{0, 3, 8, 15}[deg]
 		n := r.Range(0, 4)
+		if big {
+			n = r.Range(3, 24)
+		}
 		var raw bytes.Buffer
 		binary.Write(&raw, binary.LittleEndian, uint32(0x5053474e))
 		binary.Write(&raw, binary.LittleEndian, uint32(ver))
 		binary.Write(&raw, binary.LittleEndian, uint32(n))
-		raw.Write([]byte{byte(deg), byte(r.Range(0, 23)), 0, 0})
+		raw.Write([]byte{byte(deg), byte(r.Range(0, 23)), byte(r.Intn(2)), 0})
 		posBytes := 9
 		if ver == 1 {
 			posBytes = 6
 		}
 		body := make([]byte, n*(posBytes+1+3+3+3+3*shDim))
 		for i := range body {
-			body[i] = byte(r.Intn(256))
+			body[i] = byte(r.Range(1, 255)) // never 0: a zero-filled tail is distinguishable
 		}
 		if ver == 1 { // keep half floats finite: clear exponent-all-ones patterns
 			for i := 0; i < n*3; i++ {
 				body[2*i+1] &= 0x7b
+				body[2*i+1] |= 0x01
 			}
 		}
 		raw.Write(body)
-		zw := gzip.NewWriter(&buf)
+		level := hx.Pick(r, []int{gzip.DefaultCompression, gzip.NoCompression, gzip.BestSpeed})
+		zw, _ := gzip.NewWriterLevel(&buf, level)
 		zw.Write(raw.Bytes())
 		zw.Close()
-		return fileDesc{Format: "spz", Sub: fmt.Sprintf("v%d", ver), Hex: hex.EncodeToString(buf.Bytes())}, true
+		return fileDesc{Format: "spz", Sub: fmt.Sprintf("v%d-sh%d", ver, deg), Hex: hex.EncodeToString(buf.Bytes())}, true
+	default:
+		return genRefPly(r, big)
 	}
 }
 
-// token boundaries of an ASCII text: positions right after a token ends (before the following
-// whitespace) and right after each newline; position 0 included; len excluded (strict prefix).
+// token boundaries of an ASCII text from offset [from]: positions right after a token ends (before the following
+// white space) and right after each newline; len excluded (strict prefix).
+func isWs(c byte) bool { return c == ' ' || c == '\n' || c == '\r' || c == '\t' }
 func tokenBoundaries(b []byte, from int) []int {
 	set := map[int]bool{}
 	for i := from; i < len(b); i++ {
-		isWs := b[i] == ' ' || b[i] == '\n' || b[i] == '\r' || b[i] == '\t'
-		if isWs && i > 0 && !(b[i-1] == ' ' || b[i-1] == '\n' || b[i-1] == '\r' || b[i-1] == '\t') {
+		if isWs(b[i]) && i > from && !isWs(b[i-1]) {
 			set[i] = true
 		}
 		if i > 0 && b[i-1] == '\n' {
@@ -337,15 +367,21 @@ func tokenBoundaries(b []byte, from int) []int {
 	}
 	out := make([]int, 0, len(set))
 	for k := range set {
-		if k < len(b) {
-			out = append(out, k)
-		}
+		out = append(out, k)
 	}
 	sort.Ints(out)
 	return out
 }
 
-func cutsFor(d fileDesc, data []byte, r *hx.Rng, thorough bool) []int {
+func plyBodyStart(data []byte) int {
+	he := bytes.Index(data, []byte("end_header\n"))
+	if he < 0 {
+		return len(data)
+	}
+	return he + len("end_header\n")
+}
+
+func cutsFor(d fileDesc, data []byte, thorough bool) []int {
 	if d.Cuts != nil {
 		return d.Cuts
 	}
@@ -353,23 +389,18 @@ func cutsFor(d fileDesc, data []byte, r *hx.Rng, thorough bool) []int {
 	switch {
 	case d.Format == "pts":
 		cuts = append([]int{0}, tokenBoundaries(data, 0)...)
-	case d.Format == "ply" && d.Sub == "ascii":
+	case d.Format == "ply" && strings.HasPrefix(d.Sub, "ascii"):
 		// header: every byte; body: every token boundary
-		he := bytes.Index(data, []byte("end_header\n"))
-		bodyStart := len(data)
-		if he >= 0 {
-			bodyStart = he + len("end_header\n")
-		}
-		for k := 0; k < bodyStart && k < len(data); k++ {
+		bs := plyBodyStart(data)
+		for k := 0; k <= bs && k < len(data); k++ {
 			cuts = append(cuts, k)
 		}
-		cuts = append(cuts, tokenBoundaries(data, bodyStart)...)
+		cuts = append(cuts, tokenBoundaries(data, bs)...)
 	default:
 		for k := 0; k < len(data); k++ {
 			cuts = append(cuts, k)
 		}
 	}
-	// dedupe + optional stride sampling on big files
 	sort.Ints(cuts)
 	out := cuts[:0]
 	last := -1
@@ -379,68 +410,42 @@ func cutsFor(d fileDesc, data []byte, r *hx.Rng, thorough bool) []int {
 		}
 		last = k
 	}
-	limit := 700
+	limit := 1200
 	if thorough {
-		limit = 6000
+		limit = 8192
 	}
 	if len(out) > limit {
-		samp := make([]int, 0, limit)
-		stride := float64(len(out)) / float64(limit)
-		for i := 0; i < limit; i++ {
+		// stride sampling, but always the last 64 positions (trailing framing, last record)
+		samp := make([]int, 0, limit+64)
+		stride := float64(len(out)-64) / float64(limit-64)
+		for i := 0; i < limit-64; i++ {
 			samp = append(samp, out[int(float64(i)*stride)])
 		}
-		// always keep the last 40 positions (trailing framing) and the first 40
-		samp = append(samp, out[len(out)-40:]...)
-		sort.Ints(samp)
+		samp = append(samp, out[len(out)-64:]...)
 		out = samp
 	}
 	return out
 }
 
-// ---------- building a case ----------
-func ptsResultCoq(m *modeling.Mesh) string {
-	// positions / intensity*255 / colour*255 as exact integers (inputs are small integers)
-	n := m.AttributeLength()
-	pos := "[]"
-	if m.HasFloat3Attribute(modeling.PositionAttribute) {
-		p := m.Float3Attribute(modeling.PositionAttribute)
-		items := make([]string, p.Len())
-		for i := range items {
-			v := p.At(i)
-			items[i] = fmt.Sprintf("(%s,%s,%s)", z(v.X()), z(v.Y()), z(v.Z()))
-		}
-		pos = "[" + strings.Join(items, ";") + "]"
+// what compress/flate (trusted oracle, not the decoder under test) yields for a compressed prefix
+func inflatedLen(prefix []byte) int {
+	zr, err := gzip.NewReader(bytes.NewReader(prefix))
+	if err != nil {
+		return 0
 	}
-	in := "None"
-	if m.HasFloat1Attribute(modeling.IntensityAttribute) {
-		a := m.Float1Attribute(modeling.IntensityAttribute)
-		items := make([]string, a.Len())
-		for i := range items {
-			items[i] = z(math.Round(a.At(i) * 255))
-		}
-		in = "(Some [" + strings.Join(items, ";") + "])"
-	}
-	col := "None"
-	if m.HasFloat3Attribute(modeling.ColorAttribute) {
-		p := m.Float3Attribute(modeling.ColorAttribute)
-		items := make([]string, p.Len())
-		for i := range items {
-			v := p.At(i)
-			items[i] = fmt.Sprintf("(%s,%s,%s)", z(math.Round(v.X()*255)), z(math.Round(v.Y()*255)), z(math.Round(v.Z()*255)))
-		}
-		col = "(Some [" + strings.Join(items, ";") + "])"
-	}
-	return fmt.Sprintf("{| p_n := %d; p_pos := %s; p_int := %s; p_col := %s |}", n, pos, in, col)
+	n, _ := io.Copy(io.Discard, zr)
+	return int(n)
 }
-func z(f float64) string {
-	v := int64(f)
-	if v < 0 {
-		return fmt.Sprintf("(%d)%%Z", v)
+func inflateAll(data []byte) []byte {
+	zr, err := gzip.NewReader(bytes.NewReader(data))
+	if err != nil {
+		return nil
 	}
-	return fmt.Sprintf("%d%%Z", v)
+	out, _ := io.ReadAll(zr)
+	return out
 }
 
-// prefix of the pts token view at byte cut k: number of complete body lines j and tokens m of the partial line
+// prefix of the pts token view at byte cut k
 func ptsTokensAt(data []byte, k int) (hasCount bool, lines [][]string) {
 	txt := string(data[:k])
 	parts := strings.Split(txt, "\n")
@@ -448,77 +453,143 @@ func ptsTokensAt(data []byte, k int) (hasCount bool, lines [][]string) {
 		hasCount = true
 	}
 	for _, l := range parts[1:] {
-		f := strings.Fields(l)
-		lines = append(lines, f)
+		lines = append(lines, strings.Fields(l))
 	}
-	// a trailing empty element after the final newline is not a line
 	if len(lines) > 0 && len(lines[len(lines)-1]) == 0 {
 		lines = lines[:len(lines)-1]
 	}
 	return
 }
 
-func fileCase(d fileDesc, r *hx.Rng, thorough bool) hx.Case {
+func plyCutPos(data []byte, bodyStart int, ascii bool, k int) string {
+	if k < bodyStart {
+		if k == 0 || data[k-1] == '\n' {
+			return fmt.Sprintf("HLines %d", bytes.Count(data[:k], []byte("\n")))
+		}
+		return "HMid"
+	}
+	if !ascii {
+		return fmt.Sprintf("BBin %d", k-bodyStart)
+	}
+	body := data[bodyStart:k]
+	j := bytes.Count(body, []byte("\n"))
+	tail := body
+	if i := bytes.LastIndexByte(body, '\n'); i >= 0 {
+		tail = body[i+1:]
+	}
+	return fmt.Sprintf("BTok %d %d", j, len(plyx.Fields(string(tail))))
+}
+
+var pl = newPool(parallel)
+
+// ---------- building a case ----------
+func fileCase(d fileDesc, thorough bool) hx.Case {
 	data, _ := hex.DecodeString(d.Hex)
-	c := hx.Case{Kind: "file", Desc: d}
-	full := decode(d.Format, data)
-	fullDigest := ""
-	fullN := 0
-	if full.cls == clsOk && full.mesh != nil {
-		fullDigest = meshDigest(*full.mesh)
-		fullN = full.mesh.AttributeLength()
-	} else {
-		c.GoFail = fmt.Sprintf("the complete %s file does not decode (%s): generator problem or decoder defect", d.Format, full.msg)
+	c := hx.Case{Kind: "file"}
+	full := pl.decode(d.Format, data)
+	if full.Cls != clsOk {
+		c.GoFail = fmt.Sprintf("the complete %s file does not decode (%s): generator problem or decoder defect", d.Format, full.Msg)
 		c.FailKey = "c14:full-file-rejected"
 	}
-	cuts := cutsFor(d, data, r, thorough)
+	cuts := cutsFor(d, data, thorough)
+	var res []outcome
+	if pl.hangs < hangLimit {
+		res = pl.decodeAllLimited(d.Format, data, cuts)
+	}
 	obs := make([]string, 0, len(cuts))
-	nOk := 0
-	for _, k := range cuts {
-		if hangs >= 3 {
-			break // leaked spinning goroutines: stop exploring, the hang is already recorded
+	bad := func(k int, why string) {
+		if d.BadCut == nil {
+			kk := k
+			d.BadCut, d.BadWhy = &kk, why
 		}
-		o := decode(d.Format, data[:k])
+	}
+	// format specific context
+	var need, bodyStart int
+	var plain []byte
+	ascii := strings.HasPrefix(d.Sub, "ascii")
+	switch d.Format {
+	case "stl":
+		need = len(data)
+	case "ply":
+		bodyStart = plyBodyStart(data)
+		need = len(data)
+		if ascii {
+			for need > bodyStart && isWs(data[need-1]) {
+				need--
+			}
+		}
+	case "spz":
+		plain = inflateAll(data)
+		need = len(data)
+		for k := 0; k < len(data); k++ {
+			if inflatedLen(data[:k]) >= len(plain) {
+				need = k
+				break
+			}
+		}
+	}
+	for i, k := range cuts {
+		if i >= len(res) || res[i].Cls < 0 {
+			continue // not explored (hang limit reached)
+		}
+		o := res[i]
+		if o.Cls == clsCrash || o.Cls == clsHang {
+			bad(k, fmt.Sprintf("class %d: %s", o.Cls, o.Msg))
+		}
 		switch d.Format {
 		case "splat":
-			// record-streamed: data AND error
-			n, eq := 0, false
-			if o.cls == clsOk && o.mesh != nil {
-				n = o.mesh.AttributeLength()
-				// equal to the first n splats of the full decode?
-				eq = n <= fullN && splatPrefixEqual(*o.mesh, *full.mesh, n)
+			eq := o.Cls == clsOk && o.N <= len(full.Recs) && len(o.Recs) == o.N
+			if eq {
+				for j := 0; j < o.N; j++ {
+					eq = eq && o.Recs[j] == full.Recs[j]
+				}
 			}
-			obs = append(obs, fmt.Sprintf("(%d,%d,(%d,%s,%s))", k, o.cls, n, hx.CoqBool(o.hasErr), hx.CoqBool(eq)))
+			if o.Cls == clsOk && (o.N != k/32 || !eq || o.HasErr != (k%32 != 0)) {
+				bad(k, fmt.Sprintf("returned %d splats (error=%v) for %d bytes", o.N, o.HasErr, k))
+			}
+			obs = append(obs, fmt.Sprintf("(%d,%d,(%d,%s,%s))", k, o.Cls, o.N, hx.CoqBool(o.HasErr), hx.CoqBool(eq)))
 		case "pts":
-			res := "None"
-			if o.cls == clsOk && o.mesh != nil {
-				res = "(Some " + ptsResultCoq(o.mesh) + ")"
-				nOk++
+			rs := "None"
+			if o.Cls == clsOk {
+				rs = "(Some " + o.Pts + ")"
 			}
 			hasCount, lines := ptsTokensAt(data, k)
 			j, m := len(lines), 0
-			// the last line is partial unless the cut is right after its newline
 			if len(lines) > 0 && k > 0 && data[k-1] != '\n' {
 				j, m = len(lines)-1, len(lines[len(lines)-1])
 			}
-			obs = append(obs, fmt.Sprintf("((%s,%d%%nat,%d%%nat),%d,%s)", hx.CoqBool(hasCount), j, m, o.cls, res))
-		default:
-			eq := false
-			if o.cls == clsOk && o.mesh != nil {
-				eq = meshDigest(*o.mesh) == fullDigest
-				nOk++
+			if o.Cls == clsOk {
+				// names the offending cut in the replay; the judgement itself is no_placeholderb in Coq
+				all := lines
+				okLines := hasCount && len(all) >= d.PtsCount && o.N == d.PtsCount
+				for i := 0; okLines && i < d.PtsCount; i++ {
+					okLines = len(all[i]) >= 3 && len(all[i]) == len(all[0])
+				}
+				if !okLines {
+					bad(k, fmt.Sprintf("returned %d points for a prefix holding %d complete lines and %d tokens of the next", o.N, j, m))
+				}
 			}
-			obs = append(obs, fmt.Sprintf("(%d,%d,%s)", k, o.cls, hx.CoqBool(eq)))
-		}
-		if o.cls == clsCrash || o.cls == clsHang {
-			c.Nontriv = true
+			obs = append(obs, fmt.Sprintf("((%s,%d%%nat,%d%%nat),%d,%s)", hx.CoqBool(hasCount), j, m, o.Cls, rs))
+		default:
+			eq := o.Cls == clsOk && o.Digest == full.Digest
+			if o.Cls == clsOk && (k < need || !eq) {
+				bad(k, fmt.Sprintf("accepted a prefix of %d bytes (%d needed), same mesh as the complete file: %v", k, need, eq))
+			}
+			switch d.Format {
+			case "spz":
+				obs = append(obs, fmt.Sprintf("(%d,%d,%s,%d)", k, o.Cls, hx.CoqBool(eq), inflatedLen(data[:k])))
+			case "ply":
+				obs = append(obs, fmt.Sprintf("(%d,%d,%s,%s)", k, o.Cls, hx.CoqBool(eq), plyCutPos(data, bodyStart, ascii, k)))
+			default:
+				obs = append(obs, fmt.Sprintf("(%d,%d,%s)", k, o.Cls, hx.CoqBool(eq)))
+			}
 		}
 	}
 	switch d.Format {
 	case "stl":
 		c.Coq = fmt.Sprintf("CStl %s [%s]", hx.CoqListN(data), strings.Join(obs, ";"))
 	case "splat":
-		c.Coq = fmt.Sprintf("CSplat %d [%s]", len(data), strings.Join(obs, ";"))
+		c.Coq = fmt.Sprintf("CSplat %s [%s]", hx.CoqListN(data), strings.Join(obs, ";"))
 	case "pts":
 		ls := make([]string, len(d.PtsLines))
 		for i, l := range d.PtsLines {
@@ -528,76 +599,176 @@ func fileCase(d fileDesc, r *hx.Rng, thorough bool) hx.Case {
 			}
 			ls[i] = hx.CoqListZ(zs)
 		}
-		c.Coq = fmt.Sprintf("CPts %d%%Z [%s] [%s]", d.PtsCount, strings.Join(ls, ";"), strings.Join(obs, ";"))
-	default:
-		c.Coq = fmt.Sprintf("CGeneric %s %d [%s]", hx.CoqString(d.Format+"/"+d.Sub), len(data), strings.Join(obs, ";"))
+		c.Coq = fmt.Sprintf("CPts %s [%s] [%s]", hx.CoqZ(int64(d.PtsCount)), strings.Join(ls, ";"), strings.Join(obs, ";"))
+	case "spz":
+		c.Coq = fmt.Sprintf("CSpz %d %d %s [%s]", len(data), need, hx.CoqListN(plain), strings.Join(obs, ";"))
+	case "ply":
+		fc, ok := plyx.FileCoq(data)
+		if !ok {
+			fc = "{| pf_header := []; pf_body := BodyBin [] |}"
+			for i := range obs { // no model view of this file: class comparison skipped
+				obs[i] = obs[i][:strings.LastIndex(obs[i], ",")] + ",HMid)"
+			}
+		}
+		c.Coq = fmt.Sprintf("CPly %d %d %s [%s]", len(data), need, fc, strings.Join(obs, ";"))
 	}
-	c.Nontriv = len(cuts) > 20
+	c.Desc = d
+	c.Nontriv = len(obs) > 20
 	c.Key = d.Format + d.Sub + d.Hex
 	return c
 }
 
-func splatPrefixEqual(a, full modeling.Mesh, n int) bool {
-	for _, name := range []string{modeling.PositionAttribute, modeling.ScaleAttribute, modeling.FDCAttribute} {
-		if n == 0 {
-			continue
-		}
-		if !a.HasFloat3Attribute(name) || !full.HasFloat3Attribute(name) {
-			return false
-		}
-		x, y := a.Float3Attribute(name), full.Float3Attribute(name)
-		for i := 0; i < n; i++ {
-			p, q := x.At(i), y.At(i)
-			if !(same(p.X(), q.X()) && same(p.Y(), q.Y()) && same(p.Z(), q.Z())) {
-				return false
-			}
-		}
+// decodeAllLimited: decodeAll that stops exploring once the hang limit is reached (unexplored cuts get class -1)
+func (p *pool) decodeAllLimited(format string, data []byte, cuts []int) []outcome {
+	out := make([]outcome, len(cuts))
+	for i := range out {
+		out[i].Cls = -1
 	}
-	if n > 0 {
-		x, y := a.Float4Attribute(modeling.RotationAttribute), full.Float4Attribute(modeling.RotationAttribute)
-		o1, o2 := a.Float1Attribute(modeling.OpacityAttribute), full.Float1Attribute(modeling.OpacityAttribute)
-		for i := 0; i < n; i++ {
-			p, q := x.At(i), y.At(i)
-			if !(same(p.X(), q.X()) && same(p.Y(), q.Y()) && same(p.Z(), q.Z()) && same(p.W(), q.W())) {
-				return false
-			}
-			if !same(o1.At(i), o2.At(i)) {
-				return false
-			}
+	const chunk = 4 * parallel
+	for s := 0; s < len(cuts); s += chunk {
+		p.mu.Lock()
+		h := p.hangs
+		p.mu.Unlock()
+		if h >= hangLimit {
+			break
 		}
+		e := s + chunk
+		if e > len(cuts) {
+			e = len(cuts)
+		}
+		copy(out[s:e], p.decodeAll(format, data, cuts[s:e], parallel))
 	}
-	return true
+	return out
 }
-func same(a, b float64) bool {
-	return math.Float64bits(a) == math.Float64bits(b) || (math.IsNaN(a) && math.IsNaN(b))
+
+// ---------- hostile counts: a short stream whose header announces a huge number of records ----------
+func le32(v uint32) []byte { b := make([]byte, 4); binary.LittleEndian.PutUint32(b, v); return b }
+func gz(b []byte) []byte {
+	var buf bytes.Buffer
+	zw := gzip.NewWriter(&buf)
+	zw.Write(b)
+	zw.Close()
+	return buf.Bytes()
+}
+func hostileStreams() []hostileDesc {
+	var out []hostileDesc
+	add := func(format, what string, declared uint64, data []byte) {
+		out = append(out, hostileDesc{Format: format, What: what, Hex: hex.EncodeToString(data), Declared: declared})
+	}
+	const big = 2147483647
+	add("stl", "80-byte header, triCount = 2^31-1, one record", big, append(append(make([]byte, 80), le32(big)...), make([]byte, 50)...))
+	plyHdr := func(f string, n uint64) string {
+		return fmt.Sprintf("ply\nformat %s 1.0\nelement vertex %d\nproperty float x\nproperty float y\nproperty float z\nend_header\n", f, n)
+	}
+	add("ply", "binary PLY, element vertex 2^31-1, one record", big, append([]byte(plyHdr("binary_little_endian", big)), make([]byte, 12)...))
+	add("ply", "ASCII PLY, element vertex 2^31-1, one line", big, []byte(plyHdr("ascii", big)+"1 2 3\n"))
+	add("ply", "binary PLY, 1 vertex, element face 2^31-1, no face data", big,
+		append([]byte("ply\nformat binary_little_endian 1.0\nelement vertex 1\nproperty float x\nproperty float y\nproperty float z\nelement face 2147483647\nproperty list uchar int vertex_indices\nend_header\n"), make([]byte, 12)...))
+	add("pts", "count line 2000000000, one point", 2000000000, []byte("2000000000\n1 2 3\n"))
+	spzHdr := func(n uint32) []byte {
+		return append(append(append(le32(0x5053474e), le32(2)...), le32(n)...), 3, 12, 0, 0)
+	}
+	add("spz", "SPZ v2, numPoints = 10000000 (the reader's own maximum), degree 3, no arrays", 10000000, gz(spzHdr(10000000)))
+	add("spz", "SPZ v2, numPoints = 2^32-1", 4294967295, gz(spzHdr(4294967295)))
+	return out
+}
+
+const hostileKey = "c14:alloc-by-declared-count"
+
+func hostileCase(h hostileDesc) (hx.Case, outcome) {
+	data, _ := hex.DecodeString(h.Hex)
+	o := pl.decodeFresh(h.Format, data)
+	peak := o.PeakMB
+	if peak < 0 {
+		peak = 0
+	}
+	ms := o.Micros / 1000
+	if o.Cls == clsHang {
+		ms = deadlineFor(len(data)).Milliseconds() + 1
+	}
+	c := hx.Case{Kind: "hostile", Desc: h, Key: "hostile" + h.Hex, Nontriv: true,
+		Coq: fmt.Sprintf("CHostile %s %d %d %d %d %d", hx.CoqString(h.Format), len(data), h.Declared, o.Cls, ms, peak)}
+	if !(o.Cls == clsErr && ms <= 2000 && peak <= 256) {
+		c.FailKey = hostileKey
+	}
+	return c, o
+}
+
+// the hostile stream is judged (not only reported) once the coordinator lists the finding
+func hostileJudged() bool {
+	if v := os.Getenv("C14_JUDGE_HOSTILE"); v != "" {
+		return v == "1"
+	}
+	for _, p := range []string{"known_findings.json", filepath.Join(os.Getenv("VERIF_ROOT"), "known_findings.json"), "/verif/known_findings.json"} {
+		if raw, err := os.ReadFile(p); err == nil {
+			return bytes.Contains(raw, []byte(hostileKey))
+		}
+	}
+	return false
 }
 
 func main() {
+	if len(os.Args) > 1 && os.Args[1] == "-worker" {
+		workerMain()
+		return
+	}
 	run := hx.ParseFlags("C14", "Check.C14")
+	defer pl.close()
 	thorough := run.Tier == "thorough"
 	r := hx.NewRng(run.Seed)
 	for _, in := range run.Inputs() {
+		if in.Kind == "hostile" {
+			var h hostileDesc
+			json.Unmarshal(in.Raw, &h)
+			c, _ := hostileCase(h)
+			run.Add(c)
+			continue
+		}
 		var d fileDesc
 		json.Unmarshal(in.Raw, &d)
-		run.Add(fileCase(d, r, thorough))
+		if run.Replay != "" && d.BadCut != nil && d.Cuts == nil {
+			d.Cuts = []int{*d.BadCut} // a replay is the pair (file, cut)
+		}
+		d.BadCut, d.BadWhy = nil, ""
+		run.Add(fileCase(d, thorough))
 	}
 	if run.Replay != "" {
+		pl.close()
 		run.Finish()
 		return
 	}
 	total := 0
-	for i := 0; i < run.N && hangs < 3; i++ {
-		d, ok := genFile(r, i%7)
+	for i := 0; i < run.N && pl.hangs < hangLimit; i++ {
+		big := thorough && i%5 == 4 || !thorough && i%11 == 10 // 11 and 5 are coprime to nKinds: every kind gets big files
+		d, ok := genFile(r, i%nKinds, big)
 		if !ok {
 			run.Count("generator:writer-failed")
 			continue
 		}
-		c := fileCase(d, r, thorough)
+		c := fileCase(d, thorough)
 		run.Count("format:" + d.Format + "/" + d.Sub)
-		total += strings.Count(c.Coq, ";")
+		total += strings.Count(c.Coq, ";(") + 1
 		run.Add(c)
 	}
+	// hostile counts
+	judged := hostileJudged()
+	hostile := []map[string]interface{}{}
+	for _, h := range hostileStreams() {
+		c, o := hostileCase(h)
+		hostile = append(hostile, map[string]interface{}{"format": h.Format, "what": h.What, "bytes": len(h.Hex) / 2,
+			"declared": h.Declared, "class": o.Cls, "ms": o.Micros / 1000, "peak_mb": o.PeakMB, "msg": o.Msg,
+			"within_input_proportional_budget": c.FailKey == ""})
+		if judged || c.FailKey == "" {
+			run.Add(c)
+		}
+	}
+	run.Extra["hostile_counts"] = hostile
+	run.Extra["hostile_counts_judged"] = judged
 	run.Extra["prefix_decodes"] = total
-	run.Extra["hangs"] = hangs
+	run.Extra["decode_calls"] = pl.calls
+	run.Extra["hangs"] = pl.hangs
+	run.Extra["decoder_process_deaths"] = pl.died
+	run.Extra["deadline"] = "2 s + 1 us/byte per decode, child process, RLIMIT_AS 3 GiB"
+	pl.close()
 	run.Finish()
 }
